@@ -81,6 +81,9 @@ def setup_case(ctx, case):
             ctx.violation({'clause': 'hop i partial secret = sample i'}, f'seed {sname} n={n} hop {i}')
         view = A.setup_for(raw, i)
         ctx.trans()
+        want_view = (ys[0],) if i == 0 else (Ys[i - 1], Ys[i], ys[i])
+        if tuple(view) != want_view:
+            ctx.violation({'clause': 'party view = (left lock point, right lock point, own secret)'}, f'seed {sname} n={n} party {i}')
         if not A.check_setup(view, i, n):
             ctx.violation({'clause': 'every party\'s own view passes setup validation'}, f'seed {sname} n={n} party {i}')
         # another party's view substituted in must fail (intermediate parties)
@@ -96,6 +99,12 @@ def setup_case(ctx, case):
     final = A.setup_for(raw, n)
     if not A.check_setup(final, n, n):
         ctx.violation({'clause': 'every party\'s own view passes setup validation'}, f'seed {sname} n={n} receiver view')
+    try:
+        ok_final = final[0][0] == Ys[n - 1] and A.verify_lock_key(final[0][0], final[1])
+    except BaseException:
+        ok_final = False
+    if not ok_final:
+        ctx.violation({'clause': 'the final key opens the last lock', 'where': 'receiver view'}, f'seed {sname} n={n}')
     key = res['key']
     want_key = sum(int.from_bytes(y, 'little') & ((1 << 255) - 1) for y in ys) % L
     if int.from_bytes(key, 'little') % L != want_key:
